@@ -27,11 +27,11 @@ def combos():
     """every non-empty subset of {cms (3 counter types), hh, hll} as parallel_add keyword arguments"""
     out = []
     cms_variants = [
-        {"cms_type": "linear", "width": 3, "depth": 2},
+        {"cms_type": "linear", "width": 3, "depth": 3},  # 36 counter bytes: bookkeeping words unaligned
         {"cms_type": "log8", "width": 3, "depth": 2, "max_count": 1000, "num_reserved": 3},
-        {"cms_type": "log16", "width": 2, "depth": 3},
+        {"cms_type": "log16", "width": 3, "depth": 3},
     ]
-    hh = {"width": 2, "depth": 2, "max_key_len": 4}
+    hh = {"width": 3, "depth": 2, "max_key_len": 3}  # 18 key bytes: counts and lengths unaligned
     hll = {"p": 7, "seed": 2**63 + 11}
     for cms in [None] + cms_variants:
         for h in (None, hh):
@@ -111,9 +111,14 @@ def run_case(case, expect_fault=False):
         if obs["hang"]:
             raise Violation(f"parallel_add does not terminate: {obs['raised']}", "hang")
         # a worker 'died' only if its process really ended with a non-zero status (an implementation that
-        # survives the injected fault is judged like one whose callback raised before touching the sketches)
-        dying = any(c not in (0, None) for c in obs["worker_exitcodes"])
-        if dying:
+        # survives the injected fault is judged like one whose callback raised before touching the sketches);
+        # a death is legitimate only if the case injected one: an ordinary exception from the callback must
+        # not take the worker down
+        died = any(c not in (0, None) for c in obs["worker_exitcodes"])
+        injected = any(cbmod.normalize(it).get("mode") in ("die", "exit") for it in items)
+        if died and not injected:
+            raise Violation(f"a worker process ended with a non-zero status although no death was injected ({obs['child_errors']}); parallel_add outcome: {obs['raised'] or 'returned'}", "worker-killed-by-callback-exception")
+        if died:
             obs["dying"] = True
             if obs["raised"] is None:
                 raise Violation(f"a worker died ({obs['child_errors']}) but parallel_add returned a result instead of raising", "dead-worker-ignored")
